@@ -429,6 +429,7 @@ func init() {
 
 func ExecReader(data any, selector string) (any, error) {
 	mut.Lock()
+	verifCache("lock", selector)
 	if _, ok := cache[selector]; !ok {
 		allSelectors := make([][]any, 0)
 		selectors := strings.Split(selector, "::")
@@ -440,12 +441,15 @@ func ExecReader(data any, selector string) (any, error) {
 			}
 			allSelectors = append(allSelectors, selectors)
 		}
+		verifCache("store", selector)
 		cache[selector] = allSelectors
 	}
 	// the entry is read while the lock is still held: another goroutine may be adding a
 	// different selector to the map at any time
+	verifCache("read", selector)
 	parsed := cache[selector]
 	mut.Unlock()
+	verifCache("unlock", selector)
 	result := data
 	for _, item := range parsed {
 		rs, err := ReaderExecutor(result, item)
